@@ -3,8 +3,8 @@ from verif import Case
 from gen_util import *
 import pyref, pyhdr
 
-MODULES = ["WowSrp.Props.C12"]
-THEOREMS = ["C12_step_projection", "C12_interleaving", "C12_interleaving_fresh", "C12_interleaving_wrath_client", "C12_interleaving_wrath_server", "C12_no_shared_state", "C12_no_shared_state_wrath", "C12_pair_is_two_fields", "C12_unsplit_iff", "C12_unsplit_refused_iff", "C12_unsplit_result", "C12_split_unsplit", "C12_unsplit_differ", "C12_unsplit_one_byte", "C12_isPairOf_symm", "C12_unsplit_own_halves", "C12_static_facts"]
+MODULES = ["WowSrp.Props.C12", "WowSrp.Props.SourceLayout"]
+THEOREMS = ["C12_step_projection", "C12_interleaving", "C12_interleaving_fresh", "C12_interleaving_wrath_client", "C12_interleaving_wrath_server", "C12_no_shared_state", "C12_no_shared_state_wrath", "C12_pair_is_two_fields", "C12_unsplit_iff", "C12_unsplit_refused_iff", "C12_unsplit_result", "C12_split_unsplit", "C12_unsplit_differ", "C12_unsplit_one_byte", "C12_isPairOf_symm", "C12_unsplit_own_halves", "C12_static_facts", "source_constants_complete"]
 RULE = ("random op lists over {encrypt chunk, decrypt chunk, split, clone-and-continue-on-the-clone, unsplit (Vanilla)} on the real combined objects "
         "of all three expansions, compared per direction with an independent simulation of two single-direction ciphers; Vanilla re-joining / pair test "
         "over key pairs that are equal, differ in exactly one byte at each of the 40 positions, or are unrelated; the two halves moved to two OS threads "
@@ -30,7 +30,15 @@ def generate(rng, tier):
                 elif exp == "v" and issplit: ops.append("unsplit"); issplit = False
                 else: ops.append("pr")
             ops.append("pr")
-            cs.append(Case("hdr %s %s %s %s" % (exp, role, K.hex(), " ".join(ops)), "oplist-" + exp + role, pyhdr.expected_line(exp, role, K, ops), dict(nb=nb)))
+            # the property itself: per direction the same bytes as two separate objects each handling one direction.
+            # Three lines: the op list on one object; only its encrypt calls on a fresh object; only its decrypt calls
+            # on another fresh object (post_check compares them — no reference cipher involved)
+            gid = len(cs)
+            cs.append(Case("hdr %s %s %s %s" % (exp, role, K.hex(), " ".join(ops)), "oplist-" + exp + role, None, dict(nb=nb, group=gid, part="all", ops=ops)))
+            eo = [o for o in ops if o.startswith("e:")]
+            do = [o for o in ops if o.startswith("d:")]
+            cs.append(Case(" ".join(("hdr %s %s %s %s" % (exp, role, K.hex(), " ".join(eo))).split()), "separate-encrypter-" + exp + role, None, dict(nb=0, group=gid, part="enc")))
+            cs.append(Case(" ".join(("hdr %s %s %s %s" % (exp, role, K.hex(), " ".join(do))).split()), "separate-decrypter-" + exp + role, None, dict(nb=0, group=gid, part="dec")))
     # unsplit / is_pair_of over key pairs
     K = rbytes(rng, 40)
     def pw(K2, kind):
@@ -49,12 +57,47 @@ def generate(rng, tier):
             K = rbytes(rng, 40)
             ech = [rbytes(rng, rng.randint(1, 64)) for _ in range(rng.randint(1, 40))]
             dch = [rbytes(rng, rng.randint(1, 64)) for _ in range(rng.randint(1, 40))]
-            s = pyhdr.Session(exp, role, K)
-            eo = ",".join(s.e.enc(c).hex() for c in ech)
-            do = ",".join(s.d.dec(c).hex() for c in dch)
+            gid = len(cs)
+            ops = ["e:" + c.hex() for c in ech] + ["d:" + c.hex() for c in dch]
             cs.append(Case("thr %s %s %s %s %s" % (exp, role, K.hex(), ",".join(c.hex() for c in ech), ",".join(c.hex() for c in dch)),
-                           "two-threads-" + exp + role, "%s %s ~0" % (eo, do)))
+                           "two-threads-" + exp + role, None, dict(nb=3, tgroup=gid)))
+            cs.append(Case("hdr %s %s %s %s" % (exp, role, K.hex(), " ".join(ops)), "two-threads-sequential-reference-" + exp + role, None, dict(nb=3, tgroup=gid, seq=True)))
     return cs
+
+def post_check(cases, outs):
+    fails = []
+    groups = {}
+    for c, o in zip(cases, outs):
+        if isinstance(c.meta, dict) and "group" in c.meta:
+            groups.setdefault(c.meta["group"], {})[c.meta["part"]] = (c, o)
+    tg = {}
+    for c, o in zip(cases, outs):
+        if isinstance(c.meta, dict) and "tgroup" in c.meta:
+            tg.setdefault(c.meta["tgroup"], {})["seq" if c.meta.get("seq") else "thr"] = (c, o)
+    for g in tg.values():
+        if len(g) != 2: continue
+        c, o = g["thr"]
+        seq = [t for t in g["seq"][1].split(" ")[:-1] if t]
+        t = o.split(" ")
+        got = (t[0].split(",") if t[0] != "-" else []) + (t[1].split(",") if len(t) > 1 and t[1] != "-" else [])
+        if got != seq:
+            fails.append(dict(line=c.line, backend="num", impl=o, why="halves driven from two threads produced different bytes than the sequential run", kind=c.kind))
+    for g in groups.values():
+        if len(g) != 3: continue
+        c, o = g["all"]
+        toks = o.split(" ")[:-1]
+        ops = c.meta["ops"]
+        if len(toks) != len(ops):
+            fails.append(dict(line=c.line, backend="num", impl=o, why="op list did not run to completion", kind=c.kind)); continue
+        enc = [t for t, op in zip(toks, ops) if op.startswith("e:")]
+        dec = [t for t, op in zip(toks, ops) if op.startswith("d:")]
+        se = [t for t in g["enc"][1].split(" ")[:-1] if t]
+        sd = [t for t in g["dec"][1].split(" ")[:-1] if t]
+        if enc != se:
+            fails.append(dict(line=c.line, backend="num", impl=o, why="encrypt bytes differ from a separate object handling only the sending direction: " + " ".join(se)[:200], kind=c.kind))
+        elif dec != sd:
+            fails.append(dict(line=c.line, backend="num", impl=o, why="decrypt bytes differ from a separate object handling only the receiving direction: " + " ".join(sd)[:200], kind=c.kind))
+    return fails
 
 def nontrivial(case, out):
     if case.meta and case.meta.get("nb") != 3: return None
